@@ -37,7 +37,7 @@ def check(run):
     obj = f.posparams[1]
     for c, t, h in repo.callees(f):
         if h == 'name' and t[0].name == 'stabilizer_measure':
-            run.check([norm(a) for a in c.args] == ['%s.gs' % obj, '%s.ps' % obj, 'self.gs', 'self.ps', '%s.r' % obj],
+            run.check(K.actual_texts(t[0], c) == ['%s.gs' % obj, '%s.ps' % obj, 'self.gs', 'self.ps', '%s.r' % obj],
                       'R2.mlayer', f, c, 'the layer must measure its own Z rows on the state: (obj.gs, obj.ps, self.gs, self.ps, obj.r)')
     out_var = lp_var = None
     for st, _ in walk(f.node):
@@ -144,68 +144,102 @@ def check(run):
     mis = [1 for st, ctx in raises if any('num_of_measures' in norm(t) for t, _ in ctx.conds)]
     run.check(bool(mis), 'R11.record', bw, 'len(record) != num_of_measures', 'a record of the wrong length must raise')
     # slices handed to measurement layers: [new_pointer:] when pointer == 0 else [new_pointer:pointer]
+    # pointer names by role: NEW = PTR - len(layer.qubits); PTR = NEW
+    NEW = PTR = None
+    for st, ctx in walk(bw.node):
+        if isinstance(st, ast.Assign) and isinstance(st.targets[0], ast.Name) and isinstance(st.value, ast.BinOp) and isinstance(st.value.op, ast.Sub) \
+                and isinstance(st.value.left, ast.Name) and 'len(' in norm(st.value.right):
+            NEW, PTR = st.targets[0].id, st.value.left.id
+    # the record accumulates over runs (forward appends), so slices must be taken relative to its END:
+    # either PTR starts at 0 and the last layer takes [NEW:], the others [NEW:PTR] (negative offsets),
+    # or PTR starts at len(record) and every layer takes [NEW:PTR]
+    appends = any(isinstance(st, ast.AugAssign) and norm(st.target) == 'self.measure_result' for st, _ in walk(fw.node))
+    resets = any(isinstance(st, ast.Assign) and norm(st.targets[0]) == 'self.measure_result' for st, _ in walk(fw.node))
     for st, ctx in walk(bw.node):
         for c in (ast.walk(st) if isinstance(st, ast.Expr) else []):
             if isinstance(c, ast.Call) and isinstance(c.func, ast.Attribute) and c.func.attr == 'backward' and c.keywords:
                 kw = [k for k in c.keywords if k.arg == 'measure_result']
                 if not kw or not isinstance(kw[0].value, ast.Subscript):
                     continue
+                rec_expr = norm(kw[0].value.value)
                 sl = kw[0].value.slice
-                ok0, _ = guards.entails(ctx.conds, [('pointer == 0', True)])
-                ok1, _ = guards.entails(ctx.conds, [('pointer == 0', False)])
                 lo, up = norm(sl.lower) if sl.lower is not None else None, norm(sl.upper) if sl.upper is not None else None
+                # initial value of the pointer on this path: last assignment PTR = <init> outside the layer loop under compatible conditions
+                init = None
+                for s2, c2 in walk(bw.node):
+                    if isinstance(s2, ast.Assign) and norm(s2.targets[0]) == PTR and not c2.loops and s2.lineno < st.lineno:
+                        init = s2.value
+                ok0, _ = guards.entails(ctx.conds, [('%s == 0' % PTR, True)])
+                ok1, _ = guards.entails(ctx.conds, [('%s == 0' % PTR, False)])
+                init_zero = isinstance(init, ast.Constant) and init.value == 0
+                init_len = init is not None and norm(init).replace(' ', '') == 'len(%s)' % rec_expr
+                exact_len = rec_expr != 'self.measure_result' or (resets and not appends)
                 if ok0:
-                    run.check(lo == 'new_pointer' and up is None, 'R13.slice', bw, c, 'the last measurement layer consumes the tail [new_pointer:] of the record')
+                    run.check(lo == NEW and up is None and init_zero, 'R13.slice', bw, c, 'the last measurement layer consumes the tail [new_pointer:] of the record')
                 elif ok1:
-                    run.check(lo == 'new_pointer' and up == 'pointer', 'R13.slice', bw, c, 'an earlier measurement layer consumes [new_pointer:pointer]')
+                    run.check(lo == NEW and up == PTR and init_zero, 'R13.slice', bw, c, 'an earlier measurement layer consumes [new_pointer:pointer] (offsets from the end)')
+                else:
+                    ok = lo == NEW and up == PTR and (init_len or (exact_len and init is not None and norm(init) == 'self.num_of_measures'))
+                    run.check(ok, 'R13.slice', bw, c, 'a uniform slice [new_pointer:pointer] of %s must start from the END of the record (pointer = len(record)): '
+                              'the record accumulates over forward runs, and with pointer = %s the slices address %s' % (
+                                  rec_expr, norm(init) if init is not None else '?', 'an empty range' if init_zero else 'the oldest run'))
     for st, ctx in walk(bw.node):
-        if isinstance(st, ast.Assign) and norm(st.targets[0]) == 'new_pointer':
+        if isinstance(st, ast.Assign) and norm(st.targets[0]) == NEW:
             lpv = ctx.loops[-1].target.id
-            run.check(norm(st.value).replace(' ', '') == 'pointer-len(%s.qubits)' % lpv, 'R13.slice', bw, st, 'the pointer moves back by the number of qubits of the layer')
+            run.check(norm(st.value).replace(' ', '') == '%s-len(%s.qubits)' % (PTR, lpv), 'R13.slice', bw, st, 'the pointer moves back by the number of qubits of the layer')
     # ---- MeasureLayer.backward
     b = ml.methods['backward']
     n_loops = 0
     for st, ctx in walk(b.node):
-        if isinstance(st, ast.For):
-            n_loops += 1
-            i = st.target.id
-            src = None
-            for s2 in st.body:
-                if isinstance(s2, ast.Assign) and isinstance(s2.targets[0], ast.Subscript) and isinstance(s2.value, ast.Constant):
-                    run.check(s2.value.value == 3 and norm(s2.targets[0].slice).replace(' ', '') == 'self.qubits[-%s]' % i, 'R12.zobs', b, s2,
-                              'post-selection observable must be Z (code 3) on the ii-th qubit from the end')
-                if isinstance(s2, ast.Assign) and norm(s2.targets[0]) == 'tmp_res':
-                    try:
-                        vals = []
-                        for m in (1, -1):
-                            def sub(n, env, rec, m=m):
-                                return m
-                            def call(n, env, rec):
-                                if norm(n.func) == 'int':
-                                    return int(rec(n.args[0]))
-                                raise Undecidable('call')
-                            def attr(n, env, rec):
-                                raise Undecidable('attr')
-                            vals.append(ev(s2.value, {i: 1}, sub=sub, call=call))
-                        run.check(vals == [0, 1], 'R3.sign', b, s2, 'recorded outcome +1 post-selects bit 0 and -1 bit 1 (found %s)' % vals)
-                    except Undecidable as e:
-                        run.undecided('R3.sign', b, s2, str(e))
-                    idxs = [norm(x.slice).replace(' ', '') for x in ast.walk(s2.value) if isinstance(x, ast.Subscript)]
-                    run.check(idxs == ['-%s' % i], 'R3.sign', b, s2, 'the ii-th outcome from the end belongs to the ii-th qubit from the end')
-                if isinstance(s2, ast.Assign) and isinstance(s2.value, ast.Call) and isinstance(s2.value.func, ast.Attribute) \
-                        and s2.value.func.attr == 'postselect':
-                    args = [norm(a) for a in s2.value.args]
-                    run.check(args == ['pauli(tmp)', 'tmp_res'], 'R2.mlayer', b, s2, 'postselect(pauli(tmp), tmp_res) expected, found %s' % args)
-                    pv = norm(s2.targets[0])
-                    nxt = [x for x in st.body if isinstance(x, ast.If) and pv in norm(x.test)]
-                    ok = len(nxt) == 1 and any(isinstance(y, ast.Raise) for y in nxt[0].body)
-                    if ok:
-                        try:
-                            ok = bool(ev(nxt[0].test, {pv: 0.0})) and not bool(ev(nxt[0].test, {pv: 0.5}))
-                        except Undecidable:
-                            ok = False
-                    run.check(ok, 'R11.impossible', b, s2, 'an impossible post-selection (probability 0) must raise')
-            run.check(norm(st.iter).replace(' ', '').startswith('range(1,len('), 'R10.order', b, st.iter, 'post-selection runs over the qubits in reverse (ii = 1..len)')
+        if not isinstance(st, ast.For):
+            continue
+        n_loops += 1
+        i = st.target.id
+        # the post-selection call fixes the roles of the locals: X.postselect(pauli(CODES), BIT)
+        pcall = None
+        for s2 in st.body:
+            if isinstance(s2, ast.Assign) and isinstance(s2.value, ast.Call) and isinstance(s2.value.func, ast.Attribute) \
+                    and s2.value.func.attr == 'postselect':
+                pcall = s2
+        if pcall is None or len(pcall.value.args) != 2:
+            run.violation('R2.mlayer', b, st.iter, 'every recorded outcome must be post-selected with obj.postselect(operator, bit)')
+            continue
+        a0, a1 = pcall.value.args
+        ok = isinstance(a0, ast.Call) and norm(a0.func) == 'pauli' and len(a0.args) == 1 and isinstance(a0.args[0], ast.Name) and isinstance(a1, ast.Name)
+        run.check(ok and norm(pcall.value.func.value) == b.posparams[1], 'R2.mlayer', b, pcall, 'postselect(pauli(codes), bit) on the object expected, found %s' % norm(pcall.value))
+        if not ok:
+            continue
+        codes, bit = a0.args[0].id, a1.id
+        for s2 in st.body:
+            if isinstance(s2, ast.Assign) and isinstance(s2.targets[0], ast.Subscript) and norm(s2.targets[0].value) == codes and isinstance(s2.value, ast.Constant):
+                run.check(s2.value.value == 3 and norm(s2.targets[0].slice).replace(' ', '') == 'self.qubits[-%s]' % i, 'R12.zobs', b, s2,
+                          'post-selection observable must be Z (code 3) on the ii-th qubit from the end')
+            if isinstance(s2, ast.Assign) and norm(s2.targets[0]) == bit:
+                try:
+                    vals = []
+                    for m in (1, -1):
+                        def sub(n, env, rec, m=m):
+                            return m
+                        def call(n, env, rec):
+                            if norm(n.func) == 'int':
+                                return int(rec(n.args[0]))
+                            raise Undecidable('call')
+                        vals.append(ev(s2.value, {i: 1}, sub=sub, call=call))
+                    run.check(vals == [0, 1], 'R3.sign', b, s2, 'recorded outcome +1 post-selects bit 0 and -1 bit 1 (found %s)' % vals)
+                except Undecidable as e:
+                    run.undecided('R3.sign', b, s2, str(e))
+                idxs = [norm(x.slice).replace(' ', '') for x in ast.walk(s2.value) if isinstance(x, ast.Subscript)]
+                run.check(idxs == ['-%s' % i], 'R3.sign', b, s2, 'the ii-th outcome from the end belongs to the ii-th qubit from the end')
+        pv = norm(pcall.targets[0])
+        nxt = [x for x in st.body if isinstance(x, ast.If) and pv in {n.id for n in ast.walk(x.test) if isinstance(n, ast.Name)}]
+        ok = len(nxt) == 1 and any(isinstance(y, ast.Raise) for y in nxt[0].body)
+        if ok:
+            try:
+                ok = bool(ev(nxt[0].test, {pv: 0.0})) and not bool(ev(nxt[0].test, {pv: 0.5}))
+            except Undecidable:
+                ok = False
+        run.check(ok, 'R11.impossible', b, pcall, 'an impossible post-selection (probability 0) must raise')
+        run.check(norm(st.iter).replace(' ', '').startswith('range(1,len('), 'R10.order', b, st.iter, 'post-selection runs over the qubits in reverse (ii = 1..len)')
     run.check(n_loops == 2, 'R11.impossible', b, 'two record sources', 'both the supplied record and the stored result are post-selected')
     # ---- postselect
     ps = repo.func(K.PY_S, 'StabilizerState.postselect')
@@ -215,7 +249,7 @@ def check(run):
     P, R = ps.posparams[1], ps.posparams[2]
     for c, t, h in repo.callees(ps):
         if h == 'name' and t[0].name == 'stabilizer_postselection':
-            a = c.args
+            a = K.actuals(t[0], c)
             run.check([norm(x) for x in a[:3]] == ['self.gs', 'self.ps', '%s.g' % P], 'R2.postselect', ps, c, 'kernel arguments (self.gs, self.ps, operator string, requested phase)')
             try:
                 ok = True
@@ -236,25 +270,30 @@ def check(run):
             except Undecidable:
                 run.violation('R6.sign', ps, c, 'the requested phase %s does not depend on the sign %s.p of the post-selected operator' % (norm(a[3]), P))
     rets = [norm(st.value) for st, _ in walk(ps.node) if isinstance(st, ast.Return)]
-    run.check(rets == ['prob'], 'R2.postselect', ps, 'return prob', 'postselect returns the probability computed by the kernel')
+    kp = [norm(st.targets[0].elts[-1]) for st, _ in walk(ps.node) if isinstance(st, ast.Assign) and isinstance(st.value, ast.Call)
+          and norm(st.value.func) == 'stabilizer_postselection' and isinstance(st.targets[0], ast.Tuple)]
+    run.check(len(kp) == 1 and rets == kp, 'R2.postselect', ps, 'return prob', 'postselect returns the probability computed by the kernel')
     # ---- kernel
     f, k = projk.guards_and_block(run, repo, K.PY_U, 'stabilizer_postselection', signed=True)
     K.product_sites(run, f, floor=2)
     if k is not None and k.block is not None:
-        halves = [s for s in k.block if isinstance(s, ast.Assign) and norm(s.targets[0]) == 'prob']
+        from ..names import return_names
+        rn = return_names(f)
+        PR = rn[-1] if rn and rn[-1] else 'prob'
+        halves = [s for s in k.block if isinstance(s, ast.Assign) and norm(s.targets[0]) == PR]
         ok = len(halves) == 1
         if ok:
             try:
-                ok = all(abs(ev(halves[0].value, {'prob': v}) - v / 2) < 1e-12 for v in (1.0, 0.5))
+                ok = all(abs(ev(halves[0].value, {PR: v}) - v / 2) < 1e-12 for v in (1.0, 0.5))
             except Undecidable:
                 ok = False
-        run.check(ok, 'R11.prob', f, halves[0] if halves else 'prob', 'an undetermined outcome has probability 1/2')
+        run.check(ok, 'R11.prob', f, halves[0] if halves else PR, 'an undetermined outcome has probability 1/2')
         owner = [st for st, _ in walk(f.node) if isinstance(st, ast.If) and st.body is k.block]
         if owner:
             writes = [norm(n) for s in owner[0].orelse for n in ast.walk(s) if isinstance(n, ast.Assign)
                       and isinstance(n.targets[0], ast.Subscript)]
             run.check(not writes, 'R11.prob', f, owner[0].test, 'a determined outcome must leave the state unchanged: %s' % writes)
-            zero = [n for s in owner[0].orelse for n in ast.walk(s) if isinstance(n, ast.Assign) and norm(n.targets[0]) == 'prob']
+            zero = [n for s in owner[0].orelse for n in ast.walk(s) if isinstance(n, ast.Assign) and norm(n.targets[0]) == PR]
             run.check(len(zero) == 1 and isinstance(zero[0].value, ast.Constant) and zero[0].value.value == 0, 'R11.prob', f, owner[0].test,
                       'the impossible outcome has probability 0')
     entries = [ml.methods['forward'], ml.methods['backward'], circ.methods['forward'], circ.methods['backward'], circ.methods['take'],
